@@ -320,8 +320,8 @@ class SEvent(Prim):
 class SFuture(Prim):
     _kind = 'Future'
 
-    def __init__(self):
-        self._vname = _alloc('Future', {})
+    def __init__(self, name=None):
+        self._vname = _alloc('Future', {}, name)
         if _rt().mode == 'replay':
             self._real = _cf.Future()
 
@@ -384,7 +384,19 @@ class SThread(Prim):
         self._args = args
         self._kwargs = kwargs or {}
         self._daemonic = bool(daemon)
-        self._vname = _alloc('Thread', {})
+        # the same creation site can start threads with different work (e.g. one task per element, some elements
+        # skipped): the arguments are part of the thread's identity, so that each body gets its own path graph
+        disc = getattr(self, '_disc', None)
+        if disc is None:
+            try:
+                import hashlib
+                rt_ = _rt()
+                key = (rt_.vals.key(tuple(args)), rt_.vals.key(dict(kwargs or {})))
+                disc = hashlib.sha1(repr(key).encode()).hexdigest()[:6] if (args or kwargs) else ''
+            except Exception:
+                disc = ''
+        nm = _rt().current_ctx().alloc('Thread')
+        self._vname = _alloc('Thread', {}, nm + ('#' + disc if disc else ''))
         self.name = name or self._vname
         self._started = _Started(self)
         self.ident = abs(hash(self._vname)) % 100000
@@ -759,6 +771,9 @@ _REPLACE = [
 ]
 
 
+_PATCH_DEPTH = 0
+
+
 @contextlib.contextmanager
 def patched(modules, deque_in=('mpservice._queues',), extra=(), tracked=()):
     """Replace, in the given (already imported) mpservice modules, every module-level reference
@@ -766,6 +781,16 @@ def patched(modules, deque_in=('mpservice._queues',), extra=(), tracked=()):
     subclasses onto the stub base classes."""
     import importlib
 
+    global _PATCH_DEPTH
+    if _PATCH_DEPTH > 0:
+        # already patched (replay of a counterexample from inside the analysis): nothing to do
+        _PATCH_DEPTH += 1
+        try:
+            yield
+        finally:
+            _PATCH_DEPTH -= 1
+        return
+    _PATCH_DEPTH += 1
     undo = []
     undo_attrs = []
     bases = []
@@ -798,6 +823,7 @@ def patched(modules, deque_in=('mpservice._queues',), extra=(), tracked=()):
             undo_attrs.append(tracked_attrs(cls, names))
         yield
     finally:
+        _PATCH_DEPTH -= 1
         for u in undo_attrs:
             u()
         for m, k, v in reversed(undo):
